@@ -1,3 +1,123 @@
-From C18 Require Import Model Proofs.
-Theorem C18_placeholder : True. Proof. exact placeholder. Qed.
-Print Assumptions C18_placeholder.
+(* C18 — property theorems. Statements only, each closed by `exact <lemma>`, Print Assumptions beneath,
+   then the examples: non-vacuity of the hypotheses, and the refutations of the code as it was before
+   the three repairs (9ff7c19 ReleaseBuckets, 290ab18 recover, b9905fa save) and outside the domain.
+   All theorems are about [run] = the interleaving semantics of Model.v over arbitrary label lists,
+   the same [step] function that the correspondence run (CaseDefs.v, exec_ev) executes. *)
+From Coq Require Import List ZArith Permutation.
+From C18 Require Import Model ProofsRelease ProofsManaged ProofsCoherent ProofsAcct ProofsBound.
+Import ListNotations.
+
+(* Coherence, all interleavings (no domain restriction): a lookup that returned a value returned a
+   value that the loader of some call for the SAME cache and key produces (never another key's value,
+   never a half-built one); a creator returns its own loader's value; an error (a panic) comes out
+   only of the goroutine whose own loader returned that error (panicked). *)
+Theorem C18_get_coherent : forall lim mg es ls st,
+  run (init lim mg es) ls = Some st ->
+  forall t th, nth_error (threads st) t = Some th -> returned_ok st th.
+Proof. exact get_coherent. Qed.
+Print Assumptions C18_get_coherent.
+
+(* Accounting, all interleavings inside the domain (race_free: no Release of a cache while one of its
+   entries is loading; no CleanEmptyGenerations between a save's unlock and its Add for the dropped
+   generation): for every generation that is not marked stale,
+       size counter + Adds still pending = sum of the sizes of the attached entries of that generation.
+   (Unconditional "differ by exactly the pending adds" form; with no pending Add the two are equal.) *)
+Theorem C18_accounting : forall lim mg es ls st,
+  run (init lim mg es) ls = Some st -> race_free (init lim mg es) ls = true ->
+  forall g, (g < length (gens st))%nat -> gst g (gens st) = false ->
+    (gsz g (gens st) + pend_sum g (threads st))%Z = att_sum g (entries st).
+Proof. exact accounting_per_generation. Qed.
+Print Assumptions C18_accounting.
+
+(* Every cache that was not released is in the cleaner's bucket list — all interleavings, including
+   NewCache / Release between the two halves of ReleaseBuckets. *)
+Theorem C18_managed_until_released : forall lim mg es ls st,
+  run (init lim mg es) ls = Some st ->
+  forall c, (c < length (caches st))%nat -> is_released (caches st) c = false -> In c (buckets st).
+Proof. exact managed_until_released. Qed.
+Print Assumptions C18_managed_until_released.
+
+(* The compaction loop of ReleaseBuckets, as written, for ANY list and any ascending in-range index
+   list: result ++ (the buckets that stood at those indices) is a permutation of the old list. *)
+Theorem C18_release_buckets_exact : forall (A : Type) (td : list nat) (b : list A),
+  asc_from 0 td -> (forall i, In i td -> (i < length b)%nat) ->
+  exists picked, Forall2 (fun i y => nth_error b i = Some y) td picked /\
+                 (length (release_buckets td b) + length td = length b)%nat /\
+                 Permutation (release_buckets td b ++ picked) b.
+Proof. exact @release_buckets_perm. Qed.
+Print Assumptions C18_release_buckets_exact.
+
+(* A cleaning pass (Cleaner.Cleanup: markStale, then Cache.Cleanup of every bucket, nothing in between)
+   from ANY state with a limit > 0 ends with accounted size <= limit. *)
+Theorem C18_cleanup_bounds : forall st st' r,
+  exec_ev st ECleanup = Some (st', r) -> (0 <= limit st)%Z -> limit st <> 0%Z ->
+  (acct st' <= limit st)%Z.
+Proof. exact cleanup_pass_bound. Qed.
+Print Assumptions C18_cleanup_bounds.
+
+(* ------------------------------------------------------------------ examples *)
+Open Scope Z_scope.
+
+(* defect #8 (before 9ff7c19): buckets [A,B,C,D], B and D released => [A,D]: live C dropped, released D kept *)
+Example C18_refuted_swap_last :
+  release_buckets_v0 [1;3]%nat [0;1;2;3]%nat = [0;3]%nat /\ release_buckets [1;3]%nat [0;1;2;3]%nat = [0;2]%nat.
+Proof. split; vm_compute; reflexivity. Qed.
+
+Definition w_release := [LNewCache; LNewCache; LNewCache; LNewCache; LRelease 1; LRelease 3; LRelCollect; LRelRemove].
+Example C18_release_buckets_v0_refuted :
+  exists st, run_v (mkV true true false) (init 0 0 68) w_release = Some st /\
+             is_released (caches st) 2 = false /\ ~ In 2%nat (buckets st).
+Proof. eexists. split; [vm_compute; reflexivity|]. split; [reflexivity|]. simpl. intuition discriminate. Qed.
+
+(* before 290ab18: a failing loader whose entry was cleaned meanwhile deleted the newer valid entry of
+   another goroutine by key: accounted 118, live 0 — inside the domain (race_free = true) *)
+Definition w_recover := [LNewCache; LSpawn 0 7 (OVal 1 100); LStep 0; LStep 0; LStep 0; LSpawn 0 1 OErr; LStep 1;
+  LCleanBegin; LCleanCache 0; LSpawn 0 1 (OVal 2 50); LStep 2; LStep 2; LStep 2; LStep 1].
+Example C18_recover_v0_refuted :
+  race_free (init 1 0 68) w_recover = true /\
+  (exists st, run_v (mkV false true true) (init 1 0 68) w_recover = Some st /\ acct st = 118 /\ live st = 0) /\
+  (exists st, run (init 1 0 68) w_recover = Some st /\ acct st = 118 /\ live st = 118).
+Proof. split; [vm_compute; reflexivity|]. split; eexists; (split; [vm_compute; reflexivity|split; vm_compute; reflexivity]). Qed.
+
+(* before b9905fa: CleanEmptyGenerations dropped the generation of a loading entry; save then accounted
+   the entry to a generation the cleaner no longer lists: accounted 168, live 286 *)
+Definition w_save := [LNewCache; LSpawn 0 7 (OVal 1 100); LStep 0; LStep 0; LStep 0; LSpawn 0 1 (OVal 2 50); LStep 1;
+  LRotate; LSpawn 0 7 (OVal 3 100); LStep 2; LGcGens; LStep 1; LStep 1].
+Example C18_save_v0_refuted :
+  race_free (init 2000 100 68) w_save = true /\
+  (exists st, run_v (mkV true false true) (init 2000 100 68) w_save = Some st /\ acct st = 168 /\ live st = 286) /\
+  (exists st, run (init 2000 100 68) w_save = Some st /\ acct st = 286 /\ live st = 286).
+Proof. split; [vm_compute; reflexivity|]. split; eexists; (split; [vm_compute; reflexivity|split; vm_compute; reflexivity]). Qed.
+
+(* the two domain restrictions are needed (code as it is now): Release while a creator is in its loader
+   (replayed on the real code by the harness, class witness-R3) ... *)
+Definition w_release_during_load := [LNewCache; LSpawn 0 1 (OVal 1 50); LStep 0; LRelease 0; LStep 0; LStep 0].
+Example C18_release_during_load_outside_domain :
+  race_free (init 2000 100 68) w_release_during_load = false /\
+  exists st, run (init 2000 100 68) w_release_during_load = Some st /\ acct st = 118 /\ live st = 0.
+Proof. split; [vm_compute; reflexivity|]. eexists. split; [vm_compute; reflexivity|split; vm_compute; reflexivity]. Qed.
+
+(* ... and CleanEmptyGenerations between save's unlock and its gen.size.Add (model-level only: this
+   window cannot be scheduled from outside the package) *)
+Definition w_gc_pending := [LNewCache; LSpawn 0 2 (OVal 1 200); LStep 0; LStep 0; LStep 0; LSpawn 0 1 (OVal 2 50);
+  LStep 1; LStep 1; LRotate; LSpawn 0 2 (OVal 3 1); LStep 2; LGcGens; LStep 1].
+Example C18_gc_between_unlock_and_add_outside_domain :
+  race_free (init 2000 100 68) w_gc_pending = false /\
+  exists st, run (init 2000 100 68) w_gc_pending = Some st /\ acct st = 268 /\ live st = 386.
+Proof. split; [vm_compute; reflexivity|]. eexists. split; [vm_compute; reflexivity|split; vm_compute; reflexivity]. Qed.
+
+(* non-vacuity: an interleaving inside the domain with two concurrent callers of one key (creator +
+   waiter), a failing loader, a rotation and an effective cleaning pass *)
+Definition w_live := [LNewCache; LSpawn 0 1 (OVal 5 300); LStep 0; LSpawn 0 1 (OVal 6 10); LStep 1; LStep 0; LStep 1; LStep 0;
+  LSpawn 0 2 OPanic; LStep 2; LStep 2; LRotate; LSpawn 0 3 (OVal 7 500); LStep 3; LStep 3; LStep 3].
+Example C18_nonvacuous :
+  race_free (init 400 20 68) w_live = true /\
+  exists st, run (init 400 20 68) w_live = Some st /\
+             map tpc (threads st) = [PDone (RVal 5); PDone (RVal 5); PDone RPanic; PDone (RVal 7)] /\
+             acct st = 936 /\ live st = 936 /\
+             exists st' r, exec_ev st ECleanup = Some (st', r) /\ hd 0 r = 1 /\ acct st' = 0 /\ live st' = 0.
+Proof.
+  split; [vm_compute; reflexivity|]. eexists. split; [vm_compute; reflexivity|].
+  split; [vm_compute; reflexivity|]. split; [vm_compute; reflexivity|]. split; [vm_compute; reflexivity|].
+  eexists. eexists. split; [vm_compute; reflexivity|]. repeat split; vm_compute; reflexivity.
+Qed.
